@@ -189,7 +189,11 @@ func cmdCheck(args []string) int {
 		fmt.Printf("VIOLATION property=%s replay=%s no-failing-input-found\n", id, rp)
 		return 1
 	}
-	defer os.RemoveAll(run.Dir)
+	if os.Getenv("GOVC_DEBUG") == "" {
+		defer os.RemoveAll(run.Dir)
+	} else {
+		fmt.Fprintln(os.Stderr, "keeping", run.Dir)
+	}
 	known := loadKnown()
 	var failures []Failure
 	nCoverSat, nCoverInc := 0, 0
@@ -324,12 +328,21 @@ func triage(cfg *PropConfig, run *PropRun, f Failure, root string) (string, bool
 	if (o.Result == "sat" || o.Candidate) && o.ctx != nil {
 		inputs := modelInputs(o)
 		content["model_inputs"] = inputs
+		content["input_source"] = "solver model of the failed obligation"
 		if drv := replayDrivers[cfg.ID]; drv != nil {
 			ok, log, cmd := drv(cfg, o, inputs, root)
 			content["replay_cmd"] = cmd
 			content["replay_log"] = trunc(log, 8000)
 			reproduced = ok
 		}
+	} else if drv := replayDrivers[cfg.ID]; drv != nil && o.ctx != nil {
+		// the solver gave no model (unknown/timeout): the replay harness still runs the real function on its
+		// built-in boundary inputs; a failing input found this way is a real one, but it is not the verifier's
+		ok, log, cmd := drv(cfg, o, map[string]string{}, root)
+		content["input_source"] = "replay harness defaults (the solver returned no model)"
+		content["replay_cmd"] = cmd
+		content["replay_log"] = trunc(log, 8000)
+		reproduced = ok
 	}
 	if reproduced {
 		content["verdict"] = "reproduced on the real code"
